@@ -37,12 +37,16 @@ topic_st = st.one_of(st.sampled_from(['main', 'other', '_metrics', '_hid', 'a', 
 frame_st = st.fixed_dictionaries({
     'img': st.one_of(st.none(), gen.image_spec(max_dim=120, layouts=('contig', 'colstride', 'rowstride', 'fortran')), gen.image_spec(max_dim=120, layouts=('contig', 'colstride', 'rowstride', 'fortran'))),
     'kind': st.sampled_from(['raw', 'raw', 'jpg_undecoded', 'jpg_decoded']),
+    'jpg_head': st.sampled_from(['jfif', 'jfif', 'exif_first', 'comment_first', 'bare']),   # what follows the SOI marker of a jpg-backed frame
     'data': st.one_of(st.just({}), gen.json_dict, gen.json_dict),
 })
 case_st = st.fixed_dictionaries({
     'frames': st.lists(st.tuples(topic_st, frame_st), max_size=4, unique_by=lambda t: t[0]).map(lambda l: [[t, f] for t, f in l]),
     'outs_jpg': st.sampled_from([None, True, False]),
 })
+
+
+_last_jpg = {}
 
 
 def build_frame(spec):
@@ -56,11 +60,29 @@ def build_frame(spec):
         return Frame(img, data, fmt), img
     ok_, buf = cv2.imencode('.jpg', img)
     assert ok_
-    jpg = bytes(buf)
+    jpg = rehead(bytes(buf), spec.get('jpg_head', 'jfif'))
+    _last_jpg['jpg'] = jpg
     f = Frame.from_jpg(jpg, data, spec['img']['h'], spec['img']['w'], fmt)
     if spec['kind'] == 'jpg_decoded':
         f.image
     return f, cv2.imdecode(np.frombuffer(jpg, np.uint8), cv2.IMREAD_COLOR if fmt != 'GRAY' else 0)
+
+
+def rehead(jpg, head):
+    """The same picture with a different first segment: cv2 writes SOI + JFIF APP0; cameras write Exif APP1 first, other encoders a
+    comment or nothing at all. Every variant is a valid JPEG that decodes to the same pixels."""
+    if head == 'jfif':
+        return jpg
+    assert jpg[:4] == b'\xff\xd8\xff\xe0'
+    n = int.from_bytes(jpg[4:6], 'big')
+    rest = jpg[4 + n:]                      # everything after the APP0 segment
+    if head == 'bare':
+        return b'\xff\xd8' + rest
+    if head == 'comment_first':
+        com = b'made by a test'
+        return b'\xff\xd8\xff\xfe' + (len(com) + 2).to_bytes(2, 'big') + com + rest
+    exif = b'Exif\x00\x00MM\x00\x2a\x00\x00\x00\x08\x00\x00\x00\x00\x00\x00'
+    return b'\xff\xd8\xff\xe1' + (len(exif) + 2).to_bytes(2, 'big') + exif + rest
 
 
 def through_socket(topicmsgs):
@@ -88,13 +110,18 @@ def json_eq(a, b):
 
 def run_case(case):
     np, cv2, MQ = _M['np'], _M['cv2'], _M['MQ']
-    xs, pixels = {}, {}
+    xs, pixels, jpgs = {}, {}, {}
     for topic, spec in case['frames']:
         xs[topic], pixels[topic] = build_frame(spec)
+        jpgs[topic] = _last_jpg.get('jpg')
     specs = dict((t, s) for t, s in case['frames'])
     outs_jpg = case['outs_jpg']
-    had_jpg = {t: bool(f.has_jpg) for t, f in xs.items()}
-    jpg_before = {t: bytes(f.jpg) for t, f in xs.items() if f.has_jpg}
+    # by construction, not by asking the frame: a frame built from a JPEG blob *has* that encoding (Frame.from_jpg's contract)
+    had_jpg = {t: specs[t]['img'] is not None and specs[t]['kind'] != 'raw' for t in xs}
+    jpg_before = {t: jpgs[t] for t in xs if had_jpg[t]}
+    for t, f in xs.items():
+        if had_jpg[t] and (not f.has_jpg or bytes(f.jpg) != jpgs[t]):
+            return bad(f'{t}: a frame built from a JPEG ({specs[t].get("jpg_head", "jfif")} header) does not keep that encoding', 'from_jpg-loses-encoding')
     try:
         msgs = MQ.frames2topicmsgs(xs, outs_jpg)
         wire = through_socket(msgs)
@@ -137,6 +164,8 @@ def run_case(case):
             if had_jpg[t]:
                 if wire[t][1] != jpg_before[t]:
                     return bad(f'{t}: existing jpg encoding was not passed on byte for byte', 'jpg-not-passthrough')
+                if not y.has_jpg or bytes(y.jpg) != jpg_before[t]:
+                    return bad(f'{t}: the received frame does not carry the encoding that was sent ({specs[t].get("jpg_head", "jfif")} header)', 'jpg-lost-at-receiver')
                 classes.append('jpg passthrough')
             ref = cv2.imdecode(np.frombuffer(wire[t][1], np.uint8), cv2.IMREAD_COLOR if im['fmt'] != 'GRAY' else 0)
             exp = ref if had_jpg[t] else cv2.imdecode(np.frombuffer(bytes(cv2.imencode('.jpg', np.ascontiguousarray(src))[1]), np.uint8),
@@ -153,6 +182,7 @@ def run_case(case):
         if im['layout'] != 'contig': corner.append('strided' if im['layout'] != 'fortran' else 'fortran order')
         if not im['rw']: corner.append('read-only source')
         if sp['kind'] != 'raw': corner.append(sp['kind'])
+        if sp['kind'] != 'raw' and sp.get('jpg_head', 'jfif') != 'jfif': corner.append('jpg without leading JFIF segment')
         if not sp['data']: corner.append('image with empty data')
         if do_jpg and im['fmt'] == 'GRAY': corner.append('GRAY through jpg')
         if sp['kind'] != 'raw' and not do_jpg: corner.append('jpg-backed sent raw')
